@@ -402,7 +402,10 @@ def pf(chk, w):
                          "class_A_sites": len([1 for _f, s, _k in sites if s["cls"] == "A"]),
                          "class_B_sites_inventoried_not_armed":
                              len([1 for _f, s, _k in sites if s["cls"] == "B"])})
+    import pf_stable
+    pf_stable.extend(REVIEWED)
     for f, s, key in sites:
+        key = panics.resolve_key(REVIEWED, key, s)
         if s["cls"] != "A":
             continue
         loc = s["span"].loc()
